@@ -124,10 +124,17 @@ def gen_case(rng):
         eqs.append(f"{nm} = {combination(rng.randint(2, len(primary)))}" + (f" + {rng.choice(names)}" if rng.chance(0.5) else "") + ";")
         all_names.append(nm); nonstat.add(nm)
     # a stationary variable depending on a unit-root one becomes non-stationary itself
-    if ur_names and rng.chance(0.3):
+    v0_root = None
+    unknown = set()        # names whose stationarity is not known by construction (judged by the independent criterion only)
+    if ur_names and rng.chance(0.4):
         nm = "v0"
-        eqs.append(f"{nm} = 0.5*{nm}{{-1}} + 0.25*{rng.choice(ur_names)} + {rng.choice(names)};")
+        v0_root = rng.choice(ur_names)
+        eqs.append(f"{nm} = 0.5*{nm}{{-1}} + 0.25*{v0_root} + {rng.choice(names)};")
         all_names.append(nm); nonstat.add(nm)
+        # v0 and its unit-root variable are cointegrated: v0 - 0.5*z is stationary (w = 0.5 w{-1} - 0.25 (z - z{-1}) + x)
+        if rng.chance(0.5):
+            eqs.append(f"q0 = v0 - 0.5*{v0_root}" + (f" + {rng.choice(names)}" if rng.chance(0.5) else "") + ";")
+            all_names.append("q0")
     # a stationary spread of a unit-root variable's difference
     if ur_names and rng.chance(0.4):
         nm = "d0"
@@ -161,6 +168,29 @@ def gen_case(rng):
             mshocks.append(f"w{j}")
             terms.append(mshocks[-1])
         meqs.append(f"{nm} = " + " + ".join(terms) + ";")
+    # observables that are STATIONARY combinations of non-stationary variables: a first difference (observed growth rate), a
+    # cointegrating difference (observed ratio); and free combinations whose stationarity only the independent criterion decides
+    if ur_names:
+        for j in range(rng.weighted([(0, 2), (1, 3), (2, 2)])):
+            nm = f"cobs{j}"
+            kind = rng.choice(["diff", "coint", "free"] if v0_root else ["diff", "diff", "free"])
+            if kind == "diff":
+                z = rng.choice(ur_names)
+                w = rng.choice([1, 2, -1, 0.5])
+                terms = [f"{fmt(w)}*{z}", f"{fmt(-w)}*{z}{{-1}}"]
+            elif kind == "coint":
+                w = rng.choice([1, 2, -1])
+                terms = [f"{fmt(w)}*v0", f"{fmt(-0.5 * w)}*{v0_root}"]
+            else:
+                terms = [f"{fmt(rng.choice([1, -1, 2, 0.5, -0.5]))}*{v}" + (rng.choice(["", "", "{-1}"])) for v in rng.sample(all_names, rng.randint(2, min(3, len(all_names))))]
+                unknown.add(nm)
+            if kind != "free" and rng.chance(0.5):
+                terms.append(f"{fmt(rng.choice([1, -1, 0.5]))}*{rng.choice(names)}")
+            if rng.chance(0.5):
+                mshocks.append(f"cw{j}")
+                terms.append(mshocks[-1])
+            mnames.append(nm)
+            meqs.append(f"{nm} = " + " + ".join(terms) + ";")
     src = "!transition-variables\n    " + ", ".join(all_names) + "\n!transition-shocks\n    " + ", ".join(shocks) + "\n"
     if mnames:
         src += "!measurement-variables\n    " + ", ".join(mnames) + "\n"
@@ -187,7 +217,7 @@ def gen_case(rng):
     else:
         seq = [[rng.choice(["all", "transition", "measurement", "any"]), rng.choice([0.5, 2.0, 3.0, 1.5])] for _ in range(rng.randint(1, 3))]
     return {"op": "acov", "source": src, "stds": stds, "stds2": stds2, "order": rng.randint(0, 3), "factor": rng.choice([0.5, 2.0, 3.0, 1.5]),
-            "nonstationary": sorted(nonstat), "names": all_names + mnames, "rescale_seq": seq,
+            "nonstationary": sorted(nonstat), "unknown": sorted(unknown), "names": all_names + mnames, "rescale_seq": seq,
             "transition_shocks": list(shocks), "measurement_shocks": list(mshocks)}
 
 
@@ -354,14 +384,41 @@ def oracle(ctx: Ctx, case, names, r, vid):
     if len(acov) != k + 1 or any(a.shape != (nsel, nsel) for a in acov):
         ctx.fail("acov-shape", case, tag + f"{len(acov)} matrices of shapes {[a.shape for a in acov]} for order {k}, {nsel} variables")
         return
-    # (1) NaN pattern: exactly the rows and columns of the variables that are non-stationary by construction
-    want_nan = np.array([nm in nonstat for nm in names])
+    # (1) NaN pattern: exactly the rows and columns of the variables that load on a unit root. Decided independently of the
+    #     implementation's classification (Ua, Za, boolex): a variable loads on a unit root iff its response to the initial
+    #     condition does not die out, i.e. its row of [T^h; Z T^h] does not vanish for large h (public square solution only);
+    #     where the generator knows the answer by construction (no cancellation possible, or an exact cancellation built in:
+    #     first differences, cointegrating differences) the two must agree as well
+    M = np.array(T, dtype=float)
+    for _ in range(12):
+        M = M @ M                      # T^4096: stable roots (<= 0.97) are gone, unit roots stay or grow
+        if not np.all(np.isfinite(M)):
+            break
+    if np.all(np.isfinite(M)):
+        load = np.concatenate([np.max(np.abs(M), axis=1, initial=0.0), np.max(np.abs(Z @ M), axis=1, initial=0.0)])
+        tscale = max(1.0, float(np.max(np.abs(M), initial=0.0)))
+        indep_nan = (load > 1e-8 * tscale)[np.array(r["zero_shift"])]
+    else:
+        indep_nan = None
+    unknown = set(case.get("unknown") or [])
+    constr_nan = np.array([nm in nonstat for nm in names])
+    known = np.array([nm not in unknown for nm in names])
+    if indep_nan is not None and indep_nan.shape == constr_nan.shape and not np.array_equal(indep_nan[known], constr_nan[known]):
+        # the two independent judgements disagree: a flaw of this oracle, not of the code -- nothing is demanded of this case
+        ctx.count("oracle:construction-vs-impulse-criterion-differ")
+        return
+    want_nan = indep_nan if (indep_nan is not None and indep_nan.shape == constr_nan.shape) else constr_nan
+    if indep_nan is None and unknown:
+        return
+    nonstat = {nm for nm, w in zip(names, want_nan) if w}
     want = want_nan[:, None] | want_nan[None, :]
+    if np.any(want_nan & ~constr_nan) or np.any(~want_nan & np.array([("cobs" in nm or nm in ("d0", "q0")) for nm in names])):
+        ctx.nontriv(("stationary-combination", int(np.sum(~want_nan)), int(np.sum(want_nan))))
     for j, a in enumerate(acov):
         if not np.array_equal(np.isnan(a), want):
             bad = [names[i] for i in range(nsel) if np.isnan(a[i, i]) != want_nan[i]]
-            ctx.fail("nan-pattern", case, tag + f"order {j}: NaN cells do not coincide with the rows/columns of the unit-root variables "
-                     f"{sorted(nonstat)}; differing variables {bad}")
+            ctx.fail("nan-pattern", case, tag + f"order {j}: NaN cells do not coincide with the rows/columns of the variables that load on a unit root "
+                     f"{sorted(nonstat)} (judged by whether the response to the initial condition dies out); differing variables {bad}")
             return
         if np.any(np.isinf(a)):
             ctx.fail("nan-pattern", case, tag + f"order {j}: infinite autocovariance")
@@ -413,6 +470,37 @@ def oracle(ctx: Ctx, case, names, r, vid):
     else:
         key_lyap = None
         ctx.count("oracle:square-form-not-applicable")
+    # (3b) the numbers of the stationary rows, by the MA(infinity) sum over the impulse responses of the public square solution
+    #      Phi_h = [T^h P; Z T^h P]  (this is the only value oracle that also covers observables whose unit-root components cancel:
+    #      first differences, cointegrating differences): C_j = sum_h Phi_{h+j} Su Phi_h' (+ H Sw H' on the y block at j = 0)
+    if rho < 0.95 and np.any(~want_nan):
+        sel_idx = np.flatnonzero(np.array(r["zero_shift"]))
+        st = sel_idx[~want_nan]                       # positions in [xi; y] of the reported stationary variables
+        F = np.array(P, dtype=float)
+        Phi = []
+        for h in range(2000):
+            full = np.vstack([F, Z @ F])[st]
+            Phi.append(full)
+            F = T @ F
+            # "died out" relative to the size of the (possibly non-decaying) responses it is a combination of: cancelling
+            # unit-root components leave round-off of that size
+            small_ = 1e-13 * max(1.0, float(np.max(np.abs(F), initial=0.0)))
+            if h > k + 5 and np.max(np.abs(full), initial=0.0) < small_ and np.max(np.abs(Phi[-2]), initial=0.0) < small_:
+                break
+        if len(Phi) < 2000:
+            Hfull = np.vstack([np.zeros((nxi, cw.shape[0])), H])[st]
+            for j in range(k + 1):
+                C = sum(Phi[h + j] @ cu @ Phi[h].T for h in range(len(Phi) - j))
+                if j == 0:
+                    C = C + Hfull @ cw @ Hfull.T
+                got = acov[j][~want_nan][:, ~want_nan]
+                sc = max(1.0, float(np.max(np.abs(C), initial=0.0)))
+                if not close(got, C, sc, 1e-7 / (1 - rho) ** 2):
+                    ctx.fail("ma-sum", case, tag + f"order {j}: autocovariances of the stationary variables {[n_ for n_, w in zip(names, want_nan) if not w]} "
+                             f"differ from the MA(infinity) sum over the impulse responses (max diff {np.max(np.abs(got - C)):.3e})")
+                    break
+        else:
+            ctx.count("oracle:ma-sum-not-converged")
     # (4) acorr = acov / sqrt(d_i d_j), zero-variance guard; both call forms agree
     d = np.diag(acov[0])
     for j in range(k + 1):
@@ -567,6 +655,7 @@ def do_cases(ctx: Ctx, cases, with_model=True):
         ctx.count(f"order={case['order']}"); ctx.count(f"variants={len(out)}")
         ctx.count("combination-of-unit-root-variables=" + str(any(l.count("*z") >= 2 for l in case["source"].split("\n") if l.strip().startswith(("obs", "s0")))))
         ctx.count("forward-looking=" + str("{+1}" in case["source"]))
+        ctx.count("stationary-combination-observables=" + str(case["source"].count("cobs") // 2))
         for kind, _ in case.get("rescale_seq") or []:
             ctx.count(f"rescale-kind={kind}" + (",empty-selection" if not selected_stds(case, kind) else ""))
         for vid, r in enumerate(out):
